@@ -136,6 +136,12 @@ MESHES = {
     'fan': ([(0, 0), (2, 0), (2, 2), (0, 2), (1, 1)],
             [[0, 1, 4], [1, 2, 4], [2, 3, 4], [3, 0, 4]]),
     'tri': ([(0, 0), (2, 0), (1, 2)], [[0, 1, 2]]),
+    # a row of five quads: neighbour rings propagate one face per ring
+    'strip5': ([(i, 0) for i in range(6)] + [(i, 1) for i in range(6)],
+               [[i, i + 1, i + 7, i + 6] for i in range(5)]),
+    # 2 x 3 block of quads (faces share nodes diagonally) with a triangle cap
+    'block': ([(i, j) for j in range(3) for i in range(4)] + [(1.5, 3)],
+              [[0, 1, 5, 4], [1, 2, 6, 5], [2, 3, 7, 6], [4, 5, 9, 8], [5, 6, 10, 9], [6, 7, 11, 10], [9, 10, 12]]),
 }
 
 
@@ -212,8 +218,11 @@ def ugrid(mesh='tq', *, start_index=0, fill='nan', transposed=False, with_edges=
                       node_coordinates='node_x node_y', face_node_connectivity='face_node')
     variables = {}
     variables['face_node'] = conn(faces, maxn, 'nface', 'nmax', 'face_node', dict(cf_role='face_node_connectivity'))
-    if with_edges and edge_dimension_attr:
+    if with_edges and (edge_dimension_attr or transposed):
         mesh_attrs['edge_dimension'] = 'nedge'
+    if transposed:
+        # UGRID: the *_dimension attributes are required when connectivity is stored transposed
+        mesh_attrs['face_dimension'] = 'nface'
     if 'edge_node' in supply:
         mesh_attrs['edge_node_connectivity'] = 'edge_node'
         variables['edge_node'] = conn([list(e) for e in edges], 2, 'nedge', 'Two', 'edge_node', dict(cf_role='edge_node_connectivity'))
